@@ -25,6 +25,40 @@ NA = {
 PENDING = "check not built yet in this round (planned: DESIGN.md section 5)"
 
 CHECKS = {
+    "C11": dict(
+        engine="E3 parquet store",
+        category="exploration",
+        text="The parquet files are treated as a store: seeded histories of writes (to_parquet; "
+             "DaskGeoDataFrame.to_parquet with 1..12 partitions; 3 compressions) and reads (read_parquet, "
+             "read_parquet_dask of a path / list / glob, optional columns=) over frames with 1-3 geometry "
+             "columns of all 7 kinds x 5 coordinate subtypes, plain / sliced / concatenated backing "
+             "arrays, missing and empty elements and five index kinds, executed on SimFS (permuted "
+             "listings, atomic/progressive writes) under the simulated executor. Every read is compared "
+             "with a row-level model: order, every element, kind and subtype per column, other values, "
+             "index values and name, requested column order.",
+        design_ref="DESIGN.md 5/C11",
+        note="the kind x subtype sweep is input variation, the simulator contributes listing order, task "
+             "schedule and several datasets side by side; trusted: pyarrow parquet codec, pandas",
+        technique="deterministic simulation of storage + executor, acknowledged-write-is-readable "
+                  "refinement against an in-memory map model",
+    ),
+    "C12": dict(
+        engine="E3 parquet store",
+        category="exploration",
+        text="Datasets written by DaskGeoDataFrame.to_parquet and pack_partitions_to_parquet with 1..16 "
+             "partitions (>= 11 in a fixed share) and 1-3 geometry columns are read back as single "
+             "datasets, lists and globs, with and without geometry=, on SimFS with permuted listings under "
+             "the simulated executor. Oracle: recorded bounds (private dict and public partition_bounds) "
+             "equal, partition by partition in load order, a pure-Python tight extent of the rows each part "
+             "file really holds; bounds=box keeps exactly the partitions whose extent overlaps the closed "
+             "box (boxes touching an extent exactly, reversed corners, disjoint), bounds are re-indexed, and "
+             "pruned.cx[box] equals the model rows intersecting by exact reference geometry.",
+        design_ref="DESIGN.md 5/C12",
+        note="trusted: pyarrow, the OS listing used for ground truth, the 120-line exact refgeom "
+             "(validated against intersects_bounds on 151k pairs with zero disagreements)",
+        technique="deterministic simulation of storage + executor, metadata-vs-data consistency against "
+                  "an independent extent/intersection reference",
+    ),
     "C18": dict(
         engine="E1 + E2 + E5 client threads",
         category="exploration",
@@ -156,6 +190,10 @@ def main():
             {"name": "E1 pack-to-storage", "path": "dsim/e1.py",
              "serves_properties": ["C10", "C19", "C18"],
              "kind_free_text": "real pack_partitions_to_parquet on SimFS under the simulated Dask executor"},
+            {"name": "E3 parquet store", "path": "dsim/e3.py",
+             "serves_properties": ["C11", "C12", "C06"],
+             "kind_free_text": "parquet datasets as stored state on SimFS: write histories, reads in any "
+                               "listing order, dataset model"},
             {"name": "E2 dask-in-memory", "path": "dsim/e2.py",
              "serves_properties": ["C06", "C09", "C18"],
              "kind_free_text": "Dask collections executed task by task by the simulated executor, "
